@@ -437,11 +437,13 @@ func (b *Backend) act(c net.Conn, req *Request, bh Behaviour) {
 	for _, h := range bh.Headers {
 		fmt.Fprintf(&hdr, "%s: %s\r\n", h[0], h[1])
 	}
+	// one exchange per connection, and say so: olla's transports must not pool a connection that
+	// this backend is about to close
+	hdr.WriteString("Connection: close\r\n")
 	switch bh.Framing {
 	case "chunked":
 		hdr.WriteString("Transfer-Encoding: chunked\r\n")
 	case "close":
-		hdr.WriteString("Connection: close\r\n")
 	default:
 		dl := len(body)
 		if bh.DeclaredLen > 0 {
